@@ -60,8 +60,9 @@ Definition c11_cell_violations (l : list c11_cell_case) : list nat := indices_wh
 Definition c11_cell_mismatches (l : list c11_cell_case) : list nat := indices_where (fun k => negb (c11_cell_m k)) l.
 
 (* ---------- several calls blocked at once ---------- *)
-(* (call, point) list, cause, (result, retryable) list, Done() closed, reader gone, anything left/stuck *)
-Definition c11_multi_case := (list (N * N) * N * list (N * bool) * bool * bool * bool)%type.
+(* (call, point) list, indices whose context is cancelled first, connection-ending cause,
+   (result, retryable) list, Done() closed, reader gone, anything left/stuck *)
+Definition c11_multi_case := (list (N * N) * list N * N * list (N * bool) * bool * bool * bool)%type.
 
 Fixpoint dec_cps (l : list (N * N)) : option (list (call * point)) :=
   match l with
@@ -73,18 +74,24 @@ Fixpoint dec_cps (l : list (N * N)) : option (list (call * point)) :=
       end
   end.
 
+(* the property: a call whose context was cancelled returned that context's error, every other one the
+   connection-closed error; Done() closed, reader gone, nothing left *)
 Definition c11_multi_v (k : c11_multi_case) : bool :=
-  let '(cps, z, rs, done, rexit, bad) := k in
+  let '(cps, cn, z, rs, done, rexit, bad) := k in
+  let cancelled := map N.to_nat cn in
   negb bad && done && rexit && Nat.eqb (length rs) (length cps) &&
-  forallb (fun r => rclass_eqb (dec_res (fst r)) KClosed) rs.
+  forallb (fun ir => rclass_eqb (dec_res (fst (snd ir)))
+                       (match multi_expect_ctx cancelled (fst ir) with Some _ => KCtx | None => KClosed end))
+          (combine (seq 0 (length rs)) rs).
 
 Definition c11_multi_m (k : c11_multi_case) : bool :=
-  let '(cps, z, rs, done, rexit, bad) := k in
+  let '(cps, cn, z, rs, done, rexit, bad) := k in
+  let cancelled := map N.to_nat cn in
   match dec_cps cps, dec_cause z with
   | Some cps, Some z =>
       list_eqb (fun a b => rclass_eqb (fst a) (fst b) && Bool.eqb (snd a) (snd b))
-               (map (fun r => (dec_res (fst r), snd r)) rs) (multi_results cps z) &&
-      Bool.eqb done (cclosed (multi_run cps z)) && Bool.eqb rexit (rfinished (rd (multi_run cps z)))
+               (map (fun r => (dec_res (fst r), snd r)) rs) (multi_results cps cancelled z) &&
+      Bool.eqb done (cclosed (multi_run cps cancelled z)) && Bool.eqb rexit (rfinished (rd (multi_run cps cancelled z)))
   | _, _ => false
   end.
 
